@@ -59,6 +59,8 @@ pub struct Snap {
     pub heap_lists: BTreeMap<Path, Vec<usize>>,
     pub global_count: usize,
     pub problems: Vec<String>,
+    /// objects whose mark bit is set (heap path, address)
+    pub marked: Vec<(Path, usize)>,
 }
 
 /// Split the events of `verif_trace_roots` into (top-level refs, edges).
@@ -98,6 +100,7 @@ pub fn snapshot(root: &RootedThread) -> Snap {
     // heap lists
     let global = root.verif_global_heap();
     let mut owner_of: HashMap<usize, (Path, usize)> = HashMap::new();
+    let mut marked: Vec<(Path, usize)> = vec![];
     for (a, s, _m) in &global {
         owner_of.insert(*a, (vec![], *s));
     }
@@ -110,6 +113,7 @@ pub fn snapshot(root: &RootedThread) -> Snap {
         for (a, s, m) in &list {
             if *m {
                 problems.push("stale-mark-bit".to_string());
+                marked.push((t.path.clone(), *a));
             }
             owner_of.insert(*a, (t.path.clone(), *s));
             l.push(*a);
@@ -119,24 +123,37 @@ pub fn snapshot(root: &RootedThread) -> Snap {
     // reachable graph from the root thread's roots
     let events = root.verif_trace_roots();
     let (top, edges, gens, discovery) = digest(&events);
-    // phase 2 (mark_child_roots) repeats, at top level, every descendant thread object and its
-    // own roots; its length is known from the nested traces
-    let mut nested_count: HashMap<usize, usize> = HashMap::new();
-    for (p, _) in &edges {
-        *nested_count.entry(*p).or_insert(0) += 1;
-    }
-    let phase2: usize = tree
-        .iter()
-        .skip(1)
-        .map(|t| 1 + nested_count.get(&t.addr).cloned().unwrap_or(0))
-        .sum();
-    if phase2 > top.len() {
-        problems.push("trace-shape:phase2-longer-than-top".into());
-    }
-    let split = top.len().saturating_sub(phase2);
-    for (_, _, first) in &top[split..] {
-        if *first {
-            problems.push("trace-shape:first-visit-in-phase2".into());
+    // `mark_child_roots` repeats, at top level and after the collecting thread's own roots, the
+    // thread object and the own roots of the descendant threads it enumerates. The own roots of
+    // the root thread are the top-level refs minus those repetitions; they are removed from the END,
+    // one occurrence per occurrence in a descendant's nested trace, as far as they are present —
+    // no assumption is made about WHICH descendants the real code enumerates there.
+    let mut own_top: Vec<Option<usize>> = top.iter().map(|(a, _, _)| Some(*a)).collect();
+    {
+        let mut to_remove: HashMap<usize, usize> = HashMap::new();
+        for t in tree.iter().skip(1) {
+            *to_remove.entry(t.addr).or_insert(0) += 1;
+        }
+        for (p, c) in &edges {
+            if thread_addr.contains_key(p) && *p != tree[0].addr {
+                *to_remove.entry(*c).or_insert(0) += 1;
+            }
+        }
+        for slot in own_top.iter_mut().rev() {
+            if let Some(a) = *slot {
+                if let Some(n) = to_remove.get_mut(&a) {
+                    if *n > 0 {
+                        *n -= 1;
+                        *slot = None;
+                    }
+                }
+            }
+        }
+        // direct children are own roots of the root thread (its child list)
+        for t in tree.iter().skip(1) {
+            if t.path.len() == 2 {
+                own_top.push(Some(t.addr));
+            }
         }
     }
     let root_addr = tree[0].addr;
@@ -166,7 +183,7 @@ pub fn snapshot(root: &RootedThread) -> Snap {
     }
     {
         let o = objs.get_mut(&root_addr).unwrap();
-        for (a, _, _) in &top[..split] {
+        for a in own_top.iter().flatten() {
             if *a != root_addr {
                 o.edges.push(*a);
             }
@@ -200,6 +217,7 @@ pub fn snapshot(root: &RootedThread) -> Snap {
         heap_lists,
         global_count: global.len(),
         problems,
+        marked,
     }
 }
 
